@@ -45,7 +45,22 @@ def global_statements(fi: FuncInfo) -> List[ast.AST]:
     return [n for n in body_walk(fi.node) if isinstance(n, (ast.Global, ast.Nonlocal))]
 
 
-def check_hidden_state(ctx, rule: str, funcs: Sequence[FuncInfo], eff=None, allow_globals: Iterable[str] = ()):
+def argument_attribute_writes(fi: FuncInfo) -> List[ast.AST]:
+    """stores to an attribute of a parameter object (``arg.x = ...``, ``setattr(arg, ...)``, ``arg.__dict__[...] = ...``)"""
+    a = fi.node.args
+    params = {p.arg for p in list(a.posonlyargs) + list(a.args) + list(a.kwonlyargs)} - {"self", "cls"}
+    out: List[ast.AST] = []
+    for n in body_walk(fi.node):
+        if isinstance(n, ast.Attribute) and isinstance(n.ctx, (ast.Store, ast.Del)) and isinstance(n.value, ast.Name) and n.value.id in params:
+            out.append(n)
+        elif isinstance(n, ast.Subscript) and isinstance(n.ctx, (ast.Store, ast.Del)) and isinstance(n.value, ast.Attribute) and n.value.attr == "__dict__" and isinstance(n.value.value, ast.Name) and n.value.value.id in params:
+            out.append(n)
+        elif isinstance(n, ast.Call) and dotted(n.func) in ("setattr", "object.__setattr__") and n.args and isinstance(n.args[0], ast.Name) and n.args[0].id in params:
+            out.append(n)
+    return out
+
+
+def check_hidden_state(ctx, rule: str, funcs: Sequence[FuncInfo], eff=None, allow_globals: Iterable[str] = (), argument_caches: bool = False):
     """One obligation per function: no mutable default, no global rebinding, no write to
     module-level state (from the effect summaries when ``eff`` is given)."""
     allow = set(allow_globals)
@@ -56,6 +71,9 @@ def check_hidden_state(ctx, rule: str, funcs: Sequence[FuncInfo], eff=None, allo
             problems.append((f"mutable default argument {short(d)}: it is shared by all calls, so results depend on earlier calls", getattr(d, "lineno", fi.node.lineno)))
         for g in global_statements(fi):
             problems.append((f"`{short(g)}` rebinding module state from inside a function", g.lineno))
+        if argument_caches:
+            for w in argument_attribute_writes(fi):
+                problems.append((f"stores `{short(w)}` on an argument object: a result cached on the operand survives later changes of the operand, so the conversion no longer depends on the operand's current value only", getattr(w, "lineno", fi.node.lineno)))
         if eff is not None:
             for gname, sites in eff.summary(fi).globals_mutated.items():
                 if gname in allow or gname.startswith("lru:"):
